@@ -129,7 +129,7 @@ pub open spec fn step_state(c: QCtx, a: JobQueueCore, b: JobQueueCore) -> QCtx {
         else if s is AwokenWhileRunning && t is Running { c }
         else if s is Running && t is WaitingForUnpark { QCtx { parked: true, ..c } }
         else if s is AwokenWhileRunning && (t is WaitingForUnpark || (t is WaitingForWake && !c.latching) || (t is WaitingForPoll && !c.latching)) { QCtx { v_wake: false, ..c } }
-        else if c.current is Some && (t is Idle || t is WaitingForWake || t is WaitingForPoll) { QCtx { holds: false, v_hand: false, ..c } }
+        else if c.current is Some && (t is Idle || t is WaitingForWake || t is WaitingForPoll) { QCtx { holds: false, v_hand: false, latch_parked: c.latching && !(t is Idle), poll_parked: c.latching && t is WaitingForPoll, ..c } }
         else if c.current is None && t is Idle { QCtx { holds: false, ..c } }
         else if c.current is None && t is WaitingForWake && (s is Running || c.latching) { QCtx { holds: false, latch_parked: c.latching, ..c } }
         else if c.current is None && t is WaitingForPoll && c.latching { QCtx { holds: false, latch_parked: true, poll_parked: true, ..c } }
